@@ -58,19 +58,19 @@ CLAIMS = {
   "Assumed: (*State).quote frame (callback through ast.Modify), extension callbacks preserve the frame (dyncall ensures), Go panic unwinding itself is not modelled (only the handler's effect); bounded stand-in is not a proof."),
  "C11": ("proof",
   "SmallMap.get/Set and the sorted-pairs representation are proved against an abstract map view (sortedness, no duplicate keys, lookup = view) using the uninterpreted-but-lawful Cmp of C12; "
-  "BigMap operations that go through slices.BinarySearchFunc/Insert use assumed stdlib contracts. Merge/delete on big maps and the small/large threshold crossing are covered by a bounded model comparison, labelled bounded.",
+  "BigMap operations that go through slices.BinarySearchFunc/Insert use assumed stdlib contracts. Merge/delete on big maps and the small/large threshold crossing are covered by a bounded model comparison (operation histories up to 5 steps over 7-8 keys of mixed types, and every merge L + R over all subsets of 8 mixed and of 9 numeric keys), labelled bounded.",
   "Assumed: Cmp is a total preorder on keys (proved for scalars in C12, with the recorded int/float finding); slices.* contracts."),
  "C12": ("proof",
   "Cmp/Equals order laws (reflexivity, antisymmetry, transitivity, totality, consistency of Equals with Cmp==0) are lemmas over the real Cmp body unfolded for scalar operands: integers as 64-bit vectors, floats as IEEE doubles including NaN and ±0, strings, booleans, nil. "
-  "The int↔float mixed comparison is not transitive beyond 2^53: recorded as a known finding with the solver's witness. Container comparison (element-wise recursion) is covered by a bounded stand-in.",
+  "The int↔float mixed comparison is not transitive beyond 2^53: recorded as a known finding with the solver's witness. For all operands, containers included, the real recursive Cmp is proved to return -1, 0 or 1 (induction through its own contract), and an SSA audit shows that nothing reachable from Cmp / Equals applies Go's == to two interface values (which would panic on functions, errors, large arrays and maps). The remaining laws on containers (element-wise recursion) are covered by a bounded stand-in whose universe includes containers holding such values.",
   "Assumed: string comparison axioms (strcmp) in the prelude; container Cmp recursion bounded."),
  "C13": ("proof",
   "Structural core decided on SSA over the whole repository, for every input: syntax trees are immutable after construction. No function stores into a field of a syntax-tree node or into an element of a []ast.Node block that it did not allocate in the same activation, except DefineMacros (which removes definitions from the program it is given); ast.Modify/ModifyNoOk are therefore copying rewriters (the class of the sharing bug of issue #223), macro objects are written only at creation, and quoteArgs calls nothing. "
   "This gives: a definition is not altered by its uses, call sites expand independently, arguments are not evaluated during expansion. That the expanded tree is exactly the hand-substituted one is a relation over all templates and is covered by a bounded stand-in (20 templates incl. nested quotes x 12 argument tuples x 9 contexts incl. nested macro calls and a session through repl.EvalOne, printed, re-parsed and evaluated), labelled bounded.",
   "The structural clauses are audits on the real code's SSA (no SMT obligations), including that the per-node callbacks of ExpandMacros / DefineMacros write no captured variable or map (call sites share no state); freshness is syntactic per activation. Bounded stand-in is not a proof."),
  "C14": ("proof",
-  "Structural core decided on the SSA of the real SaveGlobals / Inspect code, for every state: the file is written only through two fmt.Fprintf calls with the constant formats \"%s\\n\" and \"%s=%s\\n\" (one terminated line per binding), the name=value write is reached only when no limit is configured or len(val) > limit is false for the very string that is written and the function slices no string (over-long values are skipped, never truncated), the keys are sorted before the first write (the file is a function of the bindings), and String.Inspect is strconv.Quote. SaveGlobals's write-error contract (C18) is re-proved. "
-  "That the saved text parses and evaluates back to an equal value of the same type, and functions to equally behaving functions, goes through printer, lexer, parser and evaluator: bounded stand-in (30 data bindings across all kinds and both size thresholds, 8 functions, reload whole and line by line, re-save). One genuine defect found by it is fixed (control-character escapes); two are recorded as known findings (integral floats reload as integers; the smallest integer reloads as a float).",
+  "Structural core decided on the SSA of the real SaveGlobals / Inspect code, for every state: the file is written only through two fmt.Fprintf calls with the constant formats \"%s\\n\" and \"%s=%s\\n\" (one terminated line per binding), the name=value write is reached only when no limit is configured or len(val) > limit is false for the very string that is written and the function slices no string (over-long values are skipped, never truncated), the keys are sorted before the first write (the file is a function of the bindings), String.Inspect is strconv.Quote, and every branch of SaveGlobals is one of the known ones (loop conditions, built-in constant names, function / named function, size limit, write errors), so no other condition can leave a binding out. SaveGlobals's write-error contract (C18) is re-proved. "
+  "That the saved text parses and evaluates back to an equal value of the same type, and functions to equally behaving functions, goes through printer, lexer, parser and evaluator: bounded stand-in (33 data bindings across all kinds and both size thresholds, 14 functions, reload whole and line by line and through AutoSave/AutoLoad, re-save; and, because function bodies are saved through the printer, the print/parse round-trip corpus of C02). One genuine defect found by it is fixed (control-character escapes); recorded as known findings: integral floats reload as integers; the smallest integer reloads as a float; the two printer findings of C02 as they show through saved function bodies.",
   "The structural clauses are audits (no SMT obligations besides SaveGlobals's C18 contract); library formatting functions are trusted to produce newline-free text; the round trip itself is bounded only."),
  "C15": ("proof",
   "Lexer level, decided for every input: the two modes differ only in the end marker. The field Lexer.lineMode is read by exactly one function (EOLEOF, contract proved: EOL in line mode, EOF otherwise), written only by the constructor on the object it allocates, and EOLEOF's result flows only into NextToken's return value (three SSA audit clauses); with NextToken's C16 contract this makes every non-end token and every lexer position the same function of (input, position) in both modes. "
